@@ -3,7 +3,8 @@
    delete_node (drops the whole chain, recycles the id), version bumps (transaction
    commit), get_node_at_version, node_count / all_nodes (one per non-empty chain).
    The chain primitives ([ver], [pset], [rfind], [olast], [upd_last]) and the relationship
-   version log ([read_edge], [set_edge]) are those of model/Mvcc.v (C08/C09).
+   version log ([read_edge], [set_edge], as repaired) are those of model/Mvcc.v (C08/C09);
+   relationship reads are covered on that model (C07_read_stable_edge).
    Executable; no proofs here. *)
 From Coq Require Import List NArith Bool.
 From Verif Require Import CheckLib Txn Mvcc.
@@ -105,6 +106,42 @@ Definition is_delete_of (id : N) (o : nop) : bool :=
 
 (* known-finding class: the history deletes the node whose past is read *)
 Definition Known_C07 (id : N) (ops : list nop) : bool := existsb (is_delete_of id) ops.
+
+(* ---------- the relationship log as it was before the repair (kept for the record) ----------
+   get_edge_at_version fell back to the properties current at read time when no log entry was
+   <= v, and set_edge_property pushed post-images only.  The repaired functions are
+   Mvcc.read_edge / Mvcc.set_edge (creation image, pre-image, None below the first entry). *)
+Definition read_edge_orig (s : store) (id v : N) : option ver :=
+  if negb (has_edge s id) then None
+  else
+    let r :=
+      match lookup id (elog s) with
+      | Some log =>
+          match rfind (fun e => N.leb (v_ver e) v) log with
+          | Some entry =>
+              if existsb (fun e => N.ltb v (v_ver e)) log || N.ltb v (curv s)
+              then {| v_ver := v_ver entry; v_props := v_props entry |}
+              else {| v_ver := v_ver entry; v_props := cur_eprops s id |}
+          | None => {| v_ver := 1; v_props := cur_eprops s id |}
+          end
+      | None => {| v_ver := 1; v_props := cur_eprops s id |}
+      end in
+    if N.ltb v (v_ver r) then None else Some r.
+
+Definition set_edge_orig (s : store) (e k v : N) : store :=
+  if negb (has_edge s e) then s
+  else
+    let post := pset k v (cur_eprops s e) in
+    let log := match lookup e (elog s) with Some l => l | None => [] end in
+    let log' :=
+      match olast log with
+      | Some l0 => if N.eqb (v_ver l0) (curv s)
+                   then upd_last (fun x => {| v_ver := v_ver x; v_props := post |}) log
+                   else log ++ [{| v_ver := curv s; v_props := post |}]
+      | None => log ++ [{| v_ver := curv s; v_props := post |}]
+      end in
+    {| tx := tx s; next_node := next_node s; next_edge := next_edge s; nodes := nodes s;
+       live := live s; eprops := set e post (eprops s); elog := set e log' (elog s) |}.
 
 (* ---------- correspondence ---------- *)
 Definition enc_props (p : props) : list N := flat_map (fun x => [fst x; snd x]) p.
